@@ -42,9 +42,9 @@ LEVEL_TEXT = ("proof.  GENERAL (all degrees, knot vectors, multiplicities, order
               "rational surfaces (A4.4: Leibniz identity for every order, mixed partials) - two-sided inside spans, right derivatives on the half-open "
               "span incl. its left knot, left derivatives at the closed domain end for curves; order-0 entry = evaluated point; tangent vectors are the "
               "derivatives of the evaluated point and the normal is the cross product of the two true partials, orthogonal to both, unit length over R; "
-              "hodograph control-point formula.  BOUNDED: the ALTERNATIVE evaluators (A3.4/A3.8) are proved equal to the default ones only for degree "
-              "<= 3 (curves) / bi-degree <= (2,2) (surfaces).  ONLY TIED BY CORRESPONDENCE against the exact piecewise-polynomial Fraction oracle: the "
-              "alternative evaluators beyond those bounds, the hodograph objects (derivative_curve/derivative_surface as shapes), volumes have no "
+              "hodograph control-point formula; the ALTERNATIVE evaluators (A3.3/A3.4, A3.7/A3.8) equal the default ones for all degrees and orders (derivative "
+              "control points represent the k-th derivative: iterated Abel summation).  ONLY TIED BY CORRESPONDENCE against the exact piecewise-polynomial "
+              "Fraction oracle: the hodograph objects (derivative_curve/derivative_surface as shapes), volumes have no "
               "derivative API.  Three input classes of the hodograph constructors are recorded known findings (degree-1 shapes, knot of multiplicity = degree)")
 LEVEL_NOTE = ("theorems are about the hand-written Gallina model (Model/Derivs.v, Model/Basis.v), tied to evaluators.py/helpers.py/operations.py "
               "by the sampled correspondence check; the oracle differentiates the exact polynomial pieces (interpolated from exact Cox-de Boor "
